@@ -472,16 +472,13 @@ theorem dirData_sound {v : View} {d : Nat} {r : Ref} (h : dirData v d = some r) 
     r.off + r.len ≤ v.img.bytes.size ∧ r.align = 1 := by
   rw [dirData_eq_spec] at h
   unfold Spec.rawDataWindow at h
-  simp only at h
-  by_cases hc : (match v.kind with
-      | .file => le32 v.b (d + 24)
-      | .view => le32 v.b (d + 20)) + le32 v.b (d + 16) ≤ v.b.size
-  · rw [if_pos hc] at h
-    simp only [Option.map_some, Option.some.injEq] at h
-    subst h
-    exact ⟨hc, rfl⟩
-  · rw [if_neg hc] at h
-    cases h
+  cases hk : v.kind <;> rw [hk] at h <;> simp only at h <;> split at h
+  all_goals first
+    | (rename_i hc
+       simp only [Option.map_some, Option.some.injEq] at h
+       subst h
+       exact ⟨hc, rfl⟩)
+    | cases h
 
 theorem refOK_align1 {img : Img} {r : Ref} (h : r.off + r.len ≤ img.bytes.size) (ha : r.align = 1) : RefOK img r := by
   unfold RefOK; rw [ha]; exact ⟨h, Nat.mod_one _⟩
@@ -682,5 +679,279 @@ theorem dirEntry_safe (v : View) (d : Nat) :
         | some r =>
           obtain ⟨hin, hal⟩ := dirData_sound hd
           exact refOK_align1 hin hal
+
+/-! ### CodeView records against the documented layouts -/
+
+theorem sig_nb10 {b : Bytes} {off : Nat} (h : Spec.hasSig b off 'N' 'B' '1' '0') : le32 b off = sigNB10 := by
+  obtain ⟨h0, h1, h2, h3⟩ := h
+  unfold le32 sigNB10
+  rw [h0, h1, h2, h3]
+  decide
+
+theorem sig_rsds {b : Bytes} {off : Nat} (h : Spec.hasSig b off 'R' 'S' 'D' 'S') : le32 b off = sigRSDS := by
+  obtain ⟨h0, h1, h2, h3⟩ := h
+  unfold le32 sigRSDS
+  rw [h0, h1, h2, h3]
+  decide
+
+theorem cstrTail_of_isCStr {v : View} {bytes : Ref} {k n : Nat} {site : String} (hk : k ≤ bytes.len)
+    (h : Spec.IsCStr v.b (bytes.off + k) (bytes.len - k) n) :
+    cstrTail v bytes k site = .ok ⟨bytes.off + k, n + 1, 1⟩ := by
+  unfold cstrTail
+  rw [if_neg (by omega), cstrFromBytes_of_isCStr h]
+
+theorem codeView_of_nb10 (v : View) (d : Nat) (data : Ref) (hd : dirData v d = some data)
+    (hal : (v.img.base + data.off) % 4 = 0) (n : Nat) (h : Spec.IsNB10 v.b data.off data.len n) :
+    codeView v d = .ok (.cv20 ⟨data.off, 16, 4⟩ ⟨data.off + 16, n + 1, 1⟩) := by
+  obtain ⟨hin, _⟩ := dirData_sound hd
+  have hfit := h.fits
+  unfold codeView
+  rw [hd]
+  simp only
+  rw [if_neg (by omega), if_neg (by omega), rawRef_eq_ok (by omega) (Nat.mod_one _)]
+  simp only [Out.bind_ok]
+  rw [if_pos (sig_nb10 h.sig), if_neg (by omega), rawRef_eq_ok (by omega) hal]
+  simp only [Out.bind_ok]
+  rw [cstrTail_of_isCStr (by omega) h.path]
+  simp only [Out.bind_ok]
+
+theorem codeView_of_rsds (v : View) (d : Nat) (data : Ref) (hd : dirData v d = some data)
+    (hal : (v.img.base + data.off) % 4 = 0) (n : Nat) (h : Spec.IsRSDS v.b data.off data.len n) :
+    codeView v d = .ok (.cv70 ⟨data.off, 24, 4⟩ ⟨data.off + 24, n + 1, 1⟩) := by
+  obtain ⟨hin, _⟩ := dirData_sound hd
+  have hfit := h.fits
+  have hs := sig_rsds h.sig
+  unfold codeView
+  rw [hd]
+  simp only
+  rw [if_neg (by omega), if_neg (by omega), rawRef_eq_ok (by omega) (Nat.mod_one _)]
+  simp only [Out.bind_ok]
+  rw [if_neg (by rw [hs]; decide), if_pos hs, if_neg (by omega), rawRef_eq_ok (by omega) hal]
+  simp only [Out.bind_ok]
+  rw [cstrTail_of_isCStr (by omega) h.path]
+  simp only [Out.bind_ok]
+
+/-! ### POGO iterator -/
+
+theorem pgoLoop_safe (b : Bytes) : ∀ (fuel off n : Nat), n < fuel →
+    ∃ l, pgoLoop b fuel off n = .ok l ∧
+      ∀ it ∈ l, off + 8 ≤ it.name.off ∧ it.name.off + it.name.len ≤ off + 4 * n ∧ it.name.align = 1 := by
+  intro fuel
+  induction fuel with
+  | zero => intro off n h; omega
+  | succ fuel ih =>
+    intro off n hn
+    rw [pgoLoop]
+    by_cases h3 : n ≥ 3
+    · rw [if_pos h3]
+      simp only
+      cases hc : cstrFromBytes b (off + 8) (4 * (n - 2)) with
+      | none => exact ⟨[], rfl, fun it h => by cases h⟩
+      | some name =>
+        obtain ⟨g1, g2, g3, g4, _⟩ := cstrFromBytes_some hc
+        simp only
+        have hlen : 2 + (name.len - 1) / 4 + 1 ≤ n := by omega
+        rw [if_neg (by omega)]
+        obtain ⟨l, hl, hall⟩ := ih (off + 4 * (2 + (name.len - 1) / 4 + 1)) (n - (2 + (name.len - 1) / 4 + 1)) (by omega)
+        rw [hl]
+        simp only [Out.bind_ok]
+        refine ⟨_, rfl, ?_⟩
+        intro it hit
+        rcases List.mem_cons.1 hit with rfl | hit
+        · simp only; omega
+        · obtain ⟨a1, a2, a3⟩ := hall it hit
+          omega
+    · rw [if_neg h3]; exact ⟨[], rfl, fun it h => by cases h⟩
+
+theorem pogoLayout_le {b : Bytes} {off stop : Nat} {recs : List (Nat × Nat × Nat)}
+    (h : Spec.PogoLayout b off recs stop) : off ≤ stop := by
+  induction h with
+  | nil off => exact Nat.le_refl _
+  | cons off rva size n rest stop _ _ _ _ _ ih => omega
+
+/-- records laid out as the format says, filling the window up to less than one minimal record:
+the iterator yields exactly those records -/
+theorem pgoLoop_layout {b : Bytes} {off stop : Nat} {recs : List (Nat × Nat × Nat)}
+    (h : Spec.PogoLayout b off recs stop) :
+    ∀ (n fuel : Nat), stop ≤ off + 4 * n → off + 4 * n < stop + 12 → recs.length < fuel →
+      pgoLoop b fuel off n = .ok (Spec.pogoExpected off recs) := by
+  induction h with
+  | nil off =>
+    intro n fuel h1 h2 h3
+    obtain ⟨f, rfl⟩ : ∃ f, fuel = f + 1 := ⟨fuel - 1, by simp at h3; omega⟩
+    rw [pgoLoop, if_neg (by omega)]
+    rfl
+  | cons off rva size L rest stop h1 h2 h3 h4 hrest ih =>
+    intro n fuel g1 g2 g3
+    obtain ⟨f, rfl⟩ : ∃ f, fuel = f + 1 := ⟨fuel - 1, by simp at g3; omega⟩
+    have hle := pogoLayout_le hrest
+    rw [pgoLoop, if_pos (by omega)]
+    simp only
+    have hc : cstrFromBytes b (off + 8) (4 * (n - 2)) = some ⟨off + 8, L + 1, 1⟩ :=
+      cstrFromBytes_of_isCStr ⟨by omega, h3, h4⟩
+    rw [hc]
+    simp only [Nat.add_sub_cancel]
+    rw [if_neg (by omega)]
+    have e : off + 4 * (2 + L / 4 + 1) = off + 8 + 4 * (L / 4 + 1) := by omega
+    rw [e, ih (n - (2 + L / 4 + 1)) f (by omega) (by omega) (by simp at g3; omega)]
+    simp only [Out.bind_ok]
+    rw [← h1, ← h2]
+    rfl
+
+theorem pgoItems_safe (b : Bytes) (image : Ref) :
+    ∃ l, pgoItems b image = .ok l ∧
+      ∀ it ∈ l, image.off ≤ it.name.off ∧ it.name.off + it.name.len ≤ image.off + 4 * (image.len / 4) ∧ it.name.align = 1 := by
+  unfold pgoItems pgoIterStart
+  simp only
+  by_cases h : image.len / 4 ≥ 1
+  · rw [if_pos h]
+    simp only
+    obtain ⟨l, hl, hall⟩ := pgoLoop_safe b (image.len / 4 - 1 + 1) (image.off + 4) (image.len / 4 - 1) (by omega)
+    exact ⟨l, hl, fun it hit => by obtain ⟨a1, a2, a3⟩ := hall it hit; omega⟩
+  · rw [if_neg h]
+    simp only
+    obtain ⟨l, hl, hall⟩ := pgoLoop_safe b (image.len / 4 + 1) image.off (image.len / 4) (by omega)
+    exact ⟨l, hl, fun it hit => by obtain ⟨a1, a2, a3⟩ := hall it hit; omega⟩
+
+/-! ### pdb_file_name -/
+
+theorem pdbFileNameFrom_some (v : View) (t : Ref) :
+    ∀ (fuel i : Nat) (r : Ref), pdbFileNameFrom v t fuel i = some r →
+      ∃ j cv, i ≤ j ∧ j < i + fuel ∧ dirEntry v (debugEntryOff t j) = .ok (.codeView cv) ∧ r = cv.name ∧
+        ∀ j', i ≤ j' → j' < j → ∀ cv', dirEntry v (debugEntryOff t j') ≠ .ok (.codeView cv') := by
+  intro fuel
+  induction fuel with
+  | zero => intro i r h; cases h
+  | succ fuel ih =>
+    intro i r h
+    rw [pdbFileNameFrom] at h
+    split at h
+    · rename_i cv hcv
+      cases h
+      exact ⟨i, cv, Nat.le_refl _, by omega, hcv, rfl, fun j' h1 h2 => by omega⟩
+    · rename_i hne
+      obtain ⟨j, cv, h1, h2, h3, h4, h5⟩ := ih (i + 1) r h
+      refine ⟨j, cv, by omega, by omega, h3, h4, ?_⟩
+      intro j' g1 g2 cv' hcv'
+      by_cases hj : j' = i
+      · subst hj; exact hne cv' hcv'
+      · exact h5 j' (by omega) g2 cv' hcv'
+
+/-! ### exception directory: function bytes and unwind info -/
+
+theorem unwindInfo_safe (v : View) (t : Ref) (i : Nat) :
+    OkOrErr (unwindInfo v t i) ∧
+    ∀ im, unwindInfo v t i = .ok im → RefOK v.img im ∧ im.len = 4 ∧
+      unwindCodes v im = .ok ⟨im.off + 4, 2 * byteAt v.b (im.off + 2), 1⟩ ∧
+      RefOK v.img ⟨im.off + 4, 2 * byteAt v.b (im.off + 2), 1⟩ := by
+  unfold unwindInfo
+  have e : v.slice (rfUnwind v.b t i) 4 1 = v.at (.rva (rfUnwind v.b t i)) 4 1 := rfl
+  rw [e]
+  rcases at_okOrErr v (.rva (rfUnwind v.b t i)) 4 1 isPow2_1 with ⟨s, h⟩ | ⟨e, h⟩
+  · obtain ⟨⟨h1, _⟩, h2, h3⟩ := at_sound v _ 4 1 s h
+    rw [h]
+    simp only
+    rw [rawRef_eq_ok (by omega) (Nat.mod_one _)]
+    simp only [Out.bind_ok]
+    by_cases hc : s.len < 4 + 2 * byteAt v.b (s.off + 2)
+    · rw [if_pos hc]; exact ⟨okOrErr_err _, fun _ hh => by cases hh⟩
+    · rw [if_neg hc]
+      refine ⟨okOrErr_ok _, ?_⟩
+      intro im him
+      cases him
+      refine ⟨⟨by simp only; omega, Nat.mod_one _⟩, rfl, ?_, ⟨by simp only; omega, Nat.mod_one _⟩⟩
+      unfold unwindCodes
+      exact rawRef_eq_ok (by simp only; omega) (Nat.mod_one _)
+  · rw [h]; exact ⟨okOrErr_err _, fun _ hh => by cases hh⟩
+
+/-! ### security directory -/
+
+theorem dataDir_lt {v : View} {i va size : Nat} (h : v.dataDir i = some (va, size)) :
+    va < 4294967296 ∧ size < 4294967296 := by
+  unfold View.dataDir at h
+  split at h
+  · cases h; exact ⟨le32_lt _ _, le32_lt _ _⟩
+  · cases h
+
+theorem securityTryFrom_ok_iff (v : View) (hb : v.img.base % 4 = 0) (r : Ref) :
+    securityTryFrom v = .ok r ↔
+      v.kind = .file ∧ ∃ va size, v.dataDir 4 = some (va, size) ∧ Spec.CertWellFormed v.b.size va size ∧
+        r = ⟨va, size, 1⟩ := by
+  unfold securityTryFrom Spec.CertWellFormed
+  by_cases hk : v.kind ≠ .file
+  · rw [if_pos hk]
+    constructor
+    · intro h; cases h
+    · intro h; exact absurd h.1 hk
+  · rw [if_neg hk]
+    have hk' : v.kind = .file := by cases hv : v.kind <;> simp_all
+    cases hd : v.dataDir 4 with
+    | none =>
+      simp only
+      constructor
+      · intro h; cases h
+      · rintro ⟨_, va, size, h, _⟩; cases h
+    | some p =>
+      obtain ⟨va, size⟩ := p
+      obtain ⟨l1, l2⟩ := dataDir_lt hd
+      simp only
+      by_cases h0 : va = 0
+      · rw [if_pos h0]
+        constructor
+        · intro h; cases h
+        · rintro ⟨_, va', size', h, hw, _⟩; cases h; exact absurd h0 hw.1
+      · rw [if_neg h0]
+        by_cases hm : va % 8 ≠ 0 ∨ size % 8 ≠ 0
+        · rw [if_pos hm]
+          constructor
+          · intro h; cases h
+          · rintro ⟨_, va', size', h, hw, _⟩; cases h; omega
+        · rw [if_neg hm]
+          by_cases hz : size = 0
+          · rw [if_pos hz]
+            constructor
+            · intro h; cases h
+            · rintro ⟨_, va', size', h, hw, _⟩; cases h; omega
+          · rw [if_neg hz]
+            unfold cadd64
+            rw [if_pos (by omega)]
+            simp only
+            by_cases hin : va ≤ va + size ∧ va + size ≤ v.b.size
+            · rw [if_pos hin, if_neg (by omega), if_neg (by omega)]
+              rw [Nat.add_sub_cancel_left]
+              constructor
+              · intro h; cases h
+                exact ⟨hk', va, size, rfl, ⟨h0, by omega, by omega, by omega, hin.2⟩, rfl⟩
+              · rintro ⟨_, va', size', h, hw, rfl⟩; cases h; rfl
+            · rw [if_neg hin]
+              constructor
+              · intro h; cases h
+              · rintro ⟨_, va', size', h, hw, _⟩; cases h; omega
+
+theorem securityTryFrom_okOrErr (v : View) (hb : v.img.base % 4 = 0) : OkOrErr (securityTryFrom v) := by
+  unfold securityTryFrom
+  split
+  · exact okOrErr_err _
+  · cases hd : v.dataDir 4 with
+    | none => exact okOrErr_err _
+    | some p =>
+      obtain ⟨va, size⟩ := p
+      obtain ⟨l1, l2⟩ := dataDir_lt hd
+      simp only
+      by_cases h0 : va = 0
+      · rw [if_pos h0]; exact okOrErr_err _
+      · rw [if_neg h0]
+        by_cases hm : va % 8 ≠ 0 ∨ size % 8 ≠ 0
+        · rw [if_pos hm]; exact okOrErr_err _
+        · rw [if_neg hm]
+          by_cases hz : size = 0
+          · rw [if_pos hz]; exact okOrErr_err _
+          · rw [if_neg hz]
+            unfold cadd64
+            rw [if_pos (by omega)]
+            simp only
+            by_cases hin : va ≤ va + size ∧ va + size ≤ v.b.size
+            · rw [if_pos hin, if_neg (by omega), if_neg (by omega)]; exact okOrErr_ok _
+            · rw [if_neg hin]; exact okOrErr_err _
 
 end Pelite.Dirs
